@@ -119,6 +119,12 @@ NoStaleRead == last # <<>> => last.tag = last.ver
 EntriesAreForIdcur == \A x \in Objs : \A k \in Keys : obj[x].ent[k] # NoV => obj[x].ent[k] = obj[x].idcur
 IdNotAhead == \A x \in Objs : obj[x].idcur <= obj[x].ver
 
+\* a library mutator or a copy never refuses because of what has been read or cached before: the
+\* actions are enabled in every state in which the object exists (the replay reports a call that raises
+\* on the subject although it succeeds on a mesh freshly built from the same arrays)
+MutatorsEnabled == /\ \A x \in Objs, mu \in Mutators : obj[x].alive => ENABLED Mutate(x, mu)
+                   /\ (obj["m"].alive /\ ~obj["c"].alive) => (ENABLED CopyWithCache /\ ENABLED CopyPlain)
+
 View == <<[x \in Objs |-> [alive |-> obj[x].alive, clean |-> obj[x].idcur = obj[x].ver,
                            ent |-> [k \in Keys |-> IF obj[x].ent[k] = NoV THEN 0
                                                    ELSE IF obj[x].ent[k] = obj[x].ver THEN 1
